@@ -27,7 +27,7 @@ SHRINK_LISTS = [('batches', 'connecting'), ('batches', 'connected'),
 EXPECTED_PROBES = ['len_125', 'len_126', 'len_65535', 'len_65536',
                    'compressed_frame', 'compress_false', 'bad_arg_refused',
                    'refused_after_close', 'sent_in_closing', 'close_long_reason',
-                   'adversarial_mask']
+                   'adversarial_mask', 'transient_write_error']
 
 BOUNDARY = [0, 1, 125, 126, 127, 65535, 65536, 65537]
 BAD = ['text_bytes', 'binary_str', 'ping_str', 'pong_str', 'ping_long',
@@ -151,6 +151,13 @@ def make_case(family, i, rng, tier):
                         rng.random() < 0.2:
                     batches[state].append(_close_call(rng))
     case['batches'] = batches
+    if family == 'seeded' and rng.random() < 0.12:
+        # a write fails part-way with a "transient" errno
+        case['write_fault'] = {'k': rng.randrange(1, 5),
+                               'kind': rng.choice(['eintr', 'eagain',
+                                                   'enobufs', 'timeout']),
+                               'partial': rng.choice([1, 3, 7])}
+    case['fold'] = rng.choice([None, None, ' ', '\t'])
     case['server_closes'] = 'closing' in batches or rng.random() < 0.3
     if not case['server_closes']:
         case['app_close'] = _close_call(rng)
@@ -162,10 +169,11 @@ def build(case):
     extra = []
     ws = {'compress': False}
     if case.get('negotiated'):
-        hdr = 'Sec-WebSocket-Extensions: permessage-deflate; ' \
+        sep = '; ' if not case.get('fold') else ';\r\n' + case['fold']
+        hdr = 'Sec-WebSocket-Extensions: permessage-deflate' + sep + \
               'client_max_window_bits=%d' % case.get('cw', 15)
         if case.get('cnct'):
-            hdr += '; client_no_context_takeover'
+            hdr += sep + 'client_no_context_takeover'
         extra = [hdr.encode()]
         ws = {'compress': True}
     enc = ST.Encoded()
@@ -190,6 +198,8 @@ def build(case):
     sc = ST.stream_scenario({'seg': 'one'}, enc, tail, extra_headers=extra,
                             ws=ws, app=app,
                             connect={'ping_rate': 0, 'poll': 2})
+    if case.get('write_fault'):
+        sc['conns'][0]['faults'] = [dict(case['write_fault'], op='sendall')]
     if mask == 'payload':
         # keys equal to the first payload bytes of the calls, in call order
         keys = []
@@ -263,9 +273,30 @@ def execute(case):
     kinds = []
     if case.get('mask') in ('zero', 'ones', 'payload'):
         res.stats['probe:adversarial_mask'] += 1
-    for c in tr.calls:
+    faulted = bool(tr.world.fault_marks)
+    if faulted:
+        res.stats['probe:transient_write_error'] += 1
+    for ci, c in enumerate(tr.calls):
         op = c.spec
         evname = tr.events[c.at_event].name if c.at_event is not None else '?'
+        if faulted:
+            fseq = tr.world.fault_marks[0][5]
+            fm = tr.world.fault_marks[0]
+            hit = c.sock == fm[1] and c.k0 <= fm[2] < c.k0 + c.n_sendall
+            if c.n_sendall > 1:
+                res.bad('C03/%s/rewritten_after_partial_write' % c.op,
+                        'the call ended %s after %d sendall calls; one of '
+                        'them failed after a partial write' % (
+                            c.outcome, c.n_sendall))
+                continue
+            if hit and c.n_sendall == 1 and c.outcome == 'ok' and \
+                    c.op != 'close':     # close() reports nothing by design
+                res.bad('C03/%s/failed_write_reported_as_sent' % c.op,
+                        'sendall raised but the call returned normally')
+                continue
+            if c.seq > fseq or (hit and c.n_sendall == 1):
+                # the wire is torn from the failed write on
+                continue
         data = bytes(st.out_bytes[c.wire_before:c.wire_before + c.wrote]) \
             if st is not None and c.sock == st.index else b''
         tag = op['op'] if op['op'] != 'bad' else 'bad_' + op['variant']
@@ -408,7 +439,7 @@ def execute(case):
         if op['op'] == 'close':
             app_closed = True
     # every byte on the wire (library frames too) must be valid client frames
-    if st is not None:
+    if st is not None and not faulted:
         wire = oracle.Wire(st)
         for k, m in oracle.wire_problems(wire, negotiated):
             res.bad('C03/wire/' + k, m)
